@@ -32,6 +32,10 @@ def handle (st : DState) (j : Json) : D (DState × Json) := do
       let lines := r.2.map rTraceLine
       pure (st, Json.mkObj [("outcome", "ok"), ("lines", Json.arr (lines.map Json.str).toArray),
         ("final", rSnap r.1.snap)])
+  | "svisit" =>
+    match schemaVisit st.schema with
+    | none => pure (st, Json.mkObj [("outcome", "panic")])
+    | some es => pure (st, Json.mkObj [("outcome", "ok"), ("lines", Json.arr ((es.map rSEv).map Json.str).toArray)])
   | _ => throw s!"unknown op {op}"
 
 partial def loop (hin : IO.FS.Stream) (hout : IO.FS.Stream) (st : DState) : IO Unit := do
